@@ -33,7 +33,11 @@ func NewNumber(id *token.Token) (ExpNode, error) {
 		}
 		n, err = strconv.ParseUint(nstring, 16, 64)
 	} else {
-		n, err = strconv.ParseUint(nstring, 10, 64)
+		// A decimal integer denotes an integer if it fits an int64 (values
+		// from 2^63 up do not wrap around: they denote floats).
+		var i int64
+		i, err = strconv.ParseInt(nstring, 10, 64)
+		n = uint64(i)
 		// If an integer is too big let's make it a float
 		if err != nil {
 			f, err := strconv.ParseFloat(nstring, 64)
